@@ -10,7 +10,7 @@ locally without re-publication, event literals fired = literals consumed.
 import ast
 import re
 
-from ..model import walk_no_nested, norm, call_name, is_self_attr, FuncInfo
+from ..model import walk_no_nested, norm, call_name, is_self_attr, is_self_call, FuncInfo
 from ..facts import FuncFacts, facts_at, count_paths, calls_hit
 from ..report import Ctx, AnalysisError
 
@@ -97,6 +97,7 @@ def check(ctx: Ctx):
         ctx.check(len(c.args) >= 3 and norm(c.args[2]) == "MSG_DISCOVERY", "R-PROTO.a", f"{f.name}: discovery priority", f, c,
                   "directory notifications must be posted with MSG_DISCOVERY priority")
     ctx.floor("R-PROTO.a", 20)
+    _authority(ctx, repo)
     # dispatch through the table
     for cls in (dirc, disc):
         om = cls.methods.get("on_message")
@@ -494,8 +495,41 @@ def _is_append_receiver(func_node, sub):
     return False
 
 
+def _authority(ctx, repo):
+    """The address of an agent in a local view is what the directory last said about *that agent* (register_agent / the agent notifications).
+    A registration of something else that merely mentions an address (a computation hosted on the agent, a replica) may add an agent that is not
+    known yet, never overwrite a known one: such messages can be older than the last agent update, or carry a third party's outdated address."""
+    ctx.rule("R-AUTHORITY", "only agent registrations overwrite a known agent's address: other registrations add the agent only when it is unknown")
+    n = 0
+    for cn in ("Discovery", "Directory"):
+        cls = repo.cls(MOD, cn)
+        for m in cls.methods.values():
+            # use_directory: the caller states where the directory agent itself lives - an agent registration, by design
+            if m.name in ("register_agent", "unregister_agent", "__init__", "use_directory"):
+                continue
+            ff = FuncFacts(m.node)
+            for c in ast.walk(m.node):
+                wr = None
+                if isinstance(c, ast.Call) and is_self_call(c, "register_agent") and cn == "Discovery":
+                    wr = c
+                elif isinstance(c, ast.Subscript) and isinstance(c.ctx, ast.Store) and is_self_attr(c.value, "_agents_data"):
+                    wr = c
+                if wr is None:
+                    continue
+                n += 1
+                who = norm(wr.args[0]) if isinstance(wr, ast.Call) and wr.args else norm(getattr(wr, "slice", wr))
+                fs = {(norm(a), b) for a, b in facts_at(ff, wr)}
+                ok = (f"{who} not in self._agents_data", True) in fs or (f"{who} in self._agents_data", False) in fs
+                ctx.check(ok, "R-AUTHORITY", f"{cn}.{m.name}: the agent view is only completed, not overwritten", m, wr,
+                          f"`{norm(wr)[:70]}` must be guarded by `{who} not in self._agents_data`: otherwise a late or third-party registration replaces the agent's current address "
+                          "and the view disagrees with the directory for good")
+    if n < 1:
+        ctx.defer("R-AUTHORITY: no indirect write to the agent view found (1 confirmed by reading: Discovery.register_computation)")
+
+
 _D = "pydcop/infrastructure/discovery.py"
 VARIANTS = [
+    ("computation_registration_overwrites_agent_address", _D, "            if agent not in self._agents_data:\n                self.register_agent(agent, address, publish=False)", "            self.register_agent(agent, address, publish=False)", "break", "R-AUTHORITY"),
     ("unregister_replica_guarded_by_computation_table", _D, "        if replica not in self._replicas_data:\n            self.logger.info('Attempting to unregister an unknown '", "        if replica not in self._computations_data:\n            self.logger.info('Attempting to unregister an unknown '", "break", "R-KEEP"),
     ("register_agent_notifies_one_set_or_the_other", _D, "        for interested in self._subscription_agents[agent]:\n            self.directory_computation.notify_agent_registered(\n                interested, agent, address)\n        for interested in self._subscription_all_agents:\n",
      "        interested_agents = self._subscription_agents[agent] or \\\n            self._subscription_all_agents\n        for interested in interested_agents:\n", "break", "R-PROTO.d"),
